@@ -557,7 +557,8 @@ def _task_consumer(task):
     doc = consumer_doc(crits)
     try:
         with case_alarm(120):
-            defn = load_doc(doc) if task["via"] == "xml" else build_objects(doc)
+            # boolean attributes (useCalibratedValue ...) are written true / True / TRUE in rotation: the library reads them case-insensitively
+            defn = load_doc(doc, bool_case=("lower", "title", "upper")[(task["base"] // max(1, len(crits))) % 3]) if task["via"] == "xml" else build_objects(doc)
     except BaseException as e:  # noqa: BLE001
         t.violation({"kind": "load-failed", "exc": type(e).__name__}, {"crits": crits[:3]}, observed=str(e)[:300])
         return t
